@@ -82,10 +82,10 @@ def corpus(tier, D=2):
             s = open(f, encoding="utf-8").read()
         except (OSError, UnicodeDecodeError):
             continue
-        if len(s) < (60000 if tier == "thorough" else 12000) and not deep.search(s):
+        if len(s) < (20000 if tier == "thorough" else 12000) and not deep.search(s):
             out.append(s)
     rnd = random.Random(vf.SEED)
-    for _ in range(6000 if tier == "thorough" else 1500):
+    for _ in range(4000 if tier == "thorough" else 1500):
         out.append("".join(rnd.choice(ALPH) for _ in range(rnd.randint(1, 10))))
     return out
 
